@@ -837,7 +837,8 @@ def slice_search(ctx):
         if red in SINGLE_AXIS:
             axis = rng.randrange(-nd, nd)
         else:
-            axis = rng.choice([rng.randrange(-nd, nd), sorted(rng.sample(range(nd), rng.randint(1, nd - 1)))])
+            # axes in ANY order and spelling (NumPy accepts axis=(1, 0), axis=(-1, 0)): the pushdown must map kept axes by value
+            axis = rng.choice([rng.randrange(-nd, nd), [a - nd if rng.random() < 0.3 else a for a in rng.sample(range(nd), rng.randint(1, nd - 1))]])
         kd = rng.random() < 0.5 and red not in NO_KEEPDIMS
         case = {"red": red, "shape": shape, "chunks": chunks, "axis": axis, "keepdims": kd,
                 "split_every": rng.choice([None, 2, 3]), "dtype": rng.choice(["int64", "float64"]), "nan": "none",
